@@ -464,7 +464,7 @@ impl Worker {
             },
         );
 
-        let write_offset = writer_set.writer.write_offset();
+        let mut write_offset = writer_set.writer.write_offset();
         let events_size = events
             .iter()
             .map(|event| {
@@ -486,11 +486,14 @@ impl Worker {
             return;
         }
 
-        if write_offset as usize + events_size > writer_set.segment_size
-            && let Err(err) = writer_set.rollover()
-        {
-            let _ = reply_tx.send(Err(err));
-            return;
+        if write_offset as usize + events_size > writer_set.segment_size {
+            if let Err(err) = writer_set.rollover() {
+                let _ = reply_tx.send(Err(err));
+                return;
+            }
+            // The transaction is written to the new segment: a failed write must be
+            // truncated back to the new segment's offset, not the old segment's.
+            write_offset = writer_set.writer.write_offset();
         }
 
         let bytes_since_sync = writer_set.bytes_since_sync;
